@@ -178,6 +178,47 @@ theorem ttl_finite_and_in_range (e j : Nat) (hj : j ≤ 1000) (he : 0 < e) :
 theorem configured_expiries_positive (o : Options) :
     0 < (Cfg.ofOptions o).exp ∧ 0 < (Cfg.ofOptions o).nf := cfg_pos o
 
+/-! ### nanosecond granularity: where the pinned rounding yields 0 seconds (defect), and the fix -/
+
+/-- the millisecond model is the exact nanosecond arithmetic restricted to whole milliseconds. -/
+theorem ttlSecNs_whole_ms (ms j : Nat) : ttlSecNs (ms * 1000000) j = ttlSec ms j := by
+  unfold ttlSecNs ttlSec
+  rw [← Nat.mul_assoc]
+  generalize (10500 - j) * ms = y
+  omega
+
+/-- for every expiry of at least 2 ns and every draw the pinned rounding gives at least one second … -/
+theorem ttlSecNs_pos (e j : Nat) (hj : j ≤ 1000) (he : 2 ≤ e) : 1 ≤ ttlSecNs e j := by
+  have h : 9500 * 2 ≤ (10500 - j) * e := Nat.mul_le_mul (by omega) he
+  unfold ttlSecNs
+  generalize (10500 - j) * e = x at h
+  omega
+
+/-- … but **DEFECT (witness)**: with `WithExpiry(1)` / `WithNotFoundExpiry(1)` — one nanosecond — and a draw above
+1/2 the jittered duration truncates to 0 ns, `int(math.Ceil(0))` is 0, and `SetexCtx(…, 0)` / `SetnxExCtx(…, 0)`
+store the row / the not-found marker WITHOUT a TTL (`ttl = 0` is the model's persistent key).  Reproduced on
+the real code: fixes/C06-ttl-at-least-one-second_demo_test.go (about 1 in 4 rows, 1 in 2 markers). -/
+theorem one_nanosecond_expiry_writes_a_persistent_key :
+    (∀ j, 500 < j → j ≤ 1000 → ttlSecNs 1 j = 0)
+    ∧ (setex St.init (0, .p 1) (.row 1 1 1) (ttlSecNs 1 1000) .explicit false).cache (0, .p 1)
+        = some ⟨.row 1 1 1, 0, .explicit⟩
+    ∧ (setnx St.init (0, .p 1) (ttlSecNs 1 1000) false).cache (0, .p 1) = some ⟨.ph, 0, .loaded⟩
+    ∧ (expire (setnx St.init (0, .p 1) (ttlSecNs 1 1000) false).cache 1000000000000) (0, .p 1) = some ⟨.ph, 0, .loaded⟩ := by
+  refine ⟨fun j h1 h2 => ?_, by decide, by decide, by decide⟩
+  unfold ttlSecNs
+  omega
+
+/-- the fixed rounding (`ttlSeconds`) is at least one second for EVERY expiry and draw (1 ns and the negative
+durations an overflow produces included: they are floored to 1 s) … -/
+theorem ttl_fixed_at_least_one_second (e j : Nat) : 1 ≤ ttlSecondsFixed e j := by
+  unfold ttlSecondsFixed; split <;> omega
+
+/-- … and changes nothing for any expiry of 2 ns or more. -/
+theorem ttl_fix_changes_nothing_above_1ns (e j : Nat) (hj : j ≤ 1000) (he : 2 ≤ e) :
+    ttlSecondsFixed e j = ttlSecNs e j := by
+  have := ttlSecNs_pos e j hj he
+  unfold ttlSecondsFixed; split <;> omega
+
 /-- `newOptions` spelled out: an option that is not given, zero or negative falls back to the default (7 days /
 1 minute); a positive one is taken as it is.  (The function itself is tied to the translated source:
 `Tie.tie_newOptionsTail`, `tie_newOptionsHead`.) -/
